@@ -301,7 +301,7 @@ int main(int argc, char **argv)
       size_t b = rest.find_first_not_of(" ");
       rest = (b == std::string::npos) ? "" : rest.substr(b);
     }
-    bool ok = ops_c18(c, t) || ops_c15(c, t) || ops_c11(c, t) || ops_bias(c, t) || ops_c13(c, t) || ops_c09(c, t) || ops_c10(c, t) || ops_c16(c, t) || ops_c14(c, t) || ops_module(c, t, rest);
+    bool ok = ops_c01(c, t) || ops_c18(c, t) || ops_c15(c, t) || ops_c11(c, t) || ops_bias(c, t) || ops_c13(c, t) || ops_c09(c, t) || ops_c10(c, t) || ops_c16(c, t) || ops_c14(c, t) || ops_module(c, t, rest);
     (void) ok;
     std::cout.flush();
   }
